@@ -106,6 +106,7 @@ def _worker(args):
     gc.disable()
     agg = Counter()
     keys = set()
+    sampled = False
     viols = {}
     digests = {}
     samples = []
@@ -123,7 +124,13 @@ def _worker(args):
             evals += res.evals
             sim_seconds += res.sim_seconds
             for kx in res.keys:
-                keys.add(_h8(kx))
+                hv = _h8(kx)
+                if not sampled or hv & 63 == 0:
+                    keys.add(hv)
+            if not sampled and len(keys) > 1_500_000:
+                # memory: from here on only a fixed 1/64 subsample of the hash space is kept (a lower bound is reported)
+                sampled = True
+                keys = {h_ for h_ in keys if h_ & 63 == 0}
             if i in det_indices:
                 digests[i] = res.digest
             if len(samples) < 2 and res.sample is not None:
@@ -156,7 +163,7 @@ def _worker(args):
         return {"harness_error": "worker exception:\n" + traceback.format_exc(), "indices": indices}
     finally:
         faulthandler.cancel_dump_traceback_later()
-    return {"agg": agg, "keys": keys, "viols": viols, "digests": digests, "samples": samples,
+    return {"agg": agg, "keys": keys, "keys_sampled": sampled, "viols": viols, "digests": digests, "samples": samples,
             "evals": evals, "sim_seconds": sim_seconds, "runs": n}
 
 
@@ -243,6 +250,7 @@ def run_check(mod, tier: str) -> int:
 
     agg = Counter()
     keys = set()
+    keys_sampled = False
     viols: dict[str, dict] = {}
     digests = {}
     samples = []
@@ -284,7 +292,13 @@ def run_check(mod, tier: str) -> int:
                 it = iter(())
                 continue
             agg.update(r["agg"])
-            keys |= r["keys"]
+            if r.get("keys_sampled") and not keys_sampled:
+                keys_sampled = True
+                keys = {h_ for h_ in keys if h_ & 63 == 0}
+            keys |= ({h_ for h_ in r["keys"] if h_ & 63 == 0} if keys_sampled else r["keys"])
+            if not keys_sampled and len(keys) > 6_000_000:
+                keys_sampled = True
+                keys = {h_ for h_ in keys if h_ & 63 == 0}
             digests.update(r["digests"])
             evals += r["evals"]
             runs += r["runs"]
@@ -365,10 +379,12 @@ def run_check(mod, tier: str) -> int:
     cov = {
         "evaluations": int(evals),
         "distinct_nontrivial": len(keys),
-        "rule": mod.RULE,
+        "rule": mod.RULE + (" [distinct_nontrivial is a LOWER BOUND here: to bound memory only cases whose 64-bit hash falls into a fixed 1/64 "
+                            "of the hash space were counted; distinct_nontrivial_estimate = 64 x that]" if keys_sampled else ""),
         "samples": samples if samples else [{"note": "no sample produced"}],
         "exhaustive": False,
         "simulated_runs": runs,
+        "distinct_nontrivial_estimate": len(keys) * (64 if keys_sampled else 1),
         "runs_planned": total,
         "stopped_early_by_wall_cap": stopped_early,
         "runs_per_hour": int(runs / wall * 3600) if wall > 0 else 0,
